@@ -4,79 +4,116 @@ From Coq Require Import List ZArith Bool Arith Lia.
 From PV Require Import Base.Exn Model.Dataclass Spec.DataclassSpec Proofs.DataclassBase Proofs.DataclassRef.
 Import ListNotations.
 
+(* the first exception in a sequence of results *)
+Fixpoint first_raise (l : list (outcome unit)) : outcome unit :=
+  match l with [] => Ok tt | Ok _ :: r => first_raise r | Raise e :: _ => Raise e end.
+
+Lemma first_raise_app : forall a b,
+  first_raise (a ++ b) = match first_raise a with Ok _ => first_raise b | Raise e => Raise e end.
+Proof. induction a as [|[[]|e] a IH]; intros; simpl; [reflexivity|apply IH|reflexivity]. Qed.
+Lemma first_raise_one : forall x, first_raise [x] = x.
+Proof. intros [[]|e]; reflexivity. Qed.
+Lemma first_raise_ok : forall l, first_raise l = Ok tt <-> Forall (fun x => x = Ok tt) l.
+Proof.
+  induction l as [|[[]|e] l IH]; simpl.
+  - split; [constructor|reflexivity].
+  - rewrite IH. split; [now constructor|]. intro H. now inversion H.
+  - split; [discriminate|]. intro H. inversion H. discriminate.
+Qed.
+Lemma first_raise_const : forall x l, l <> [] -> Forall (fun y => y = x) l -> first_raise l = x.
+Proof.
+  intros x l Hne H. destruct l as [|y l]; [congruence|]. inversion H; subst. clear Hne H.
+  destruct x as [[]|e]; simpl; [|reflexivity]. apply first_raise_ok. eapply Forall_impl; [|eassumption]. auto.
+Qed.
+
+Definition of_reject (o : option exn) : outcome unit := match o with None => Ok tt | Some e => Raise e end.
+
+Lemma first_reject_none : forall c h fs r, first_reject c h fs r = None <-> all_conform c h fs r = true.
+Proof.
+  induction fs as [|f fs IH]; intro r; simpl; [tauto|].
+  destruct (getattr h r (f_name f)) as [v|]; [|split; discriminate].
+  destruct (c h (f_ann f) v) as [[]|e]; simpl; [apply IH|split; discriminate].
+Qed.
+
 Section C10.
   Variable defs : list (dparam * bool).
   Let P := ref_prog defs.
-  Variable check : heap -> ann -> value -> bool.
+  Variable check : bool -> heap -> ann -> value -> outcome unit.
 
   (* ---- the loop of validate_types: events and outcome as a function of the heap *)
-  Fixpoint checks_prefix (h : heap) (r : nat) (fs : list field) : list event * outcome unit :=
+  Fixpoint checks_prefix (vis : bool) (h : heap) (r : nat) (fs : list field) : list event * outcome unit :=
     match fs with
     | [] => ([], Ok tt)
     | f :: rest =>
       match getattr h r (f_name f) with
       | None => ([], Raise AttributeErrorC)
       | Some v =>
-        if check h (f_ann f) v then (ECheck (f_ann f) v :: fst (checks_prefix h r rest), snd (checks_prefix h r rest))
-        else ([ECheck (f_ann f) v], Raise PTypeCheckC)
+        match check vis h (f_ann f) v with
+        | Ok _ => (ECheck (f_ann f) v :: fst (checks_prefix vis h r rest), snd (checks_prefix vis h r rest))
+        | Raise e => ([ECheck (f_ann f) v], Raise e)
+        end
       end
     end.
 
-  Lemma check_loop_eq : forall fs r st,
-    check_loop check fs r st = (st_app st (fst (checks_prefix (s_heap st) r fs)), snd (checks_prefix (s_heap st) r fs)).
+  Lemma check_loop_eq : forall vis fs r st,
+    check_loop check vis fs r st =
+    (st_app st (fst (checks_prefix vis (s_heap st) r fs)), snd (checks_prefix vis (s_heap st) r fs)).
   Proof.
     induction fs as [|f fs IH]; intros r st; simpl.
     - unfold ret. now rewrite st_app_nil.
     - unfold bindM at 1. unfold getattrM. destruct (getattr (s_heap st) r (f_name f)) as [v|] eqn:E.
       + unfold bindM at 1. unfold emit. unfold bindM at 1. unfold get_heap. cbn [s_heap s_journal].
-        destruct (check (s_heap st) (f_ann f) v) eqn:Ec.
+        destruct (check vis (s_heap st) (f_ann f) v) as [[]|e] eqn:Ec.
         * rewrite IH. simpl. unfold st_app. simpl. now rewrite <- app_assoc.
         * reflexivity.
       + simpl. now rewrite st_app_nil.
   Qed.
 
-  Lemma checks_prefix_outcome : forall h r fs,
-    (forall f, In f fs -> getattr h r (f_name f) <> None) ->
-    snd (checks_prefix h r fs) = if all_conform check h fs r then Ok tt else Raise PTypeCheckC.
-  Proof.
-    induction fs as [|f fs IH]; intros Hs; simpl; [reflexivity|].
-    destruct (getattr h r (f_name f)) as [v|] eqn:E; [|exfalso; apply (Hs f); [now left|assumption]].
-    destruct (check h (f_ann f) v); simpl; [|reflexivity]. apply IH. intros g Hg. apply Hs. now right.
-  Qed.
-
-  Lemma checks_prefix_events : forall h r fs, forallb is_check (fst (checks_prefix h r fs)) = true.
+  Lemma checks_prefix_outcome : forall vis h r fs,
+    snd (checks_prefix vis h r fs) = of_reject (first_reject (check vis) h fs r).
   Proof.
     induction fs as [|f fs IH]; simpl; [reflexivity|].
-    destruct (getattr h r (f_name f)); [|reflexivity]. destruct (check h (f_ann f) v); simpl; [assumption|reflexivity].
+    destruct (getattr h r (f_name f)) as [v|] eqn:E; [|reflexivity].
+    destruct (check vis h (f_ann f) v) as [[]|e]; simpl; [apply IH|reflexivity].
+  Qed.
+
+  Lemma checks_prefix_events : forall vis h r fs, forallb is_check (fst (checks_prefix vis h r fs)) = true.
+  Proof.
+    induction fs as [|f fs IH]; simpl; [reflexivity|].
+    destruct (getattr h r (f_name f)); [|reflexivity].
+    destruct (check vis h (f_ann f) v) as [[]|e]; simpl; [assumption|reflexivity].
   Qed.
 
   (* ---- __post_init__: journal and outcome, given what one run of validate_types appends / returns *)
-  Fixpoint pi_spec (f : pifun) (ev : list event) (res : outcome unit) : list event * outcome unit :=
+  Fixpoint pi_spec (f : pifun) (v : via) (outer : nat) (ev : bool -> list event) (res : bool -> outcome unit)
+    : list event * outcome unit :=
     match f with
     | PFNone => ([], Raise AttributeErrorC)
     | PFNoop => ([], Ok tt)
     | PFUser c b => ([EPi c], match b with PIRet => Ok tt | PIRaise e => Raise e end)
     | PFNew old =>
-      match snd (pi_spec old ev res) with
-      | Ok _ => (fst (pi_spec old ev res) ++ ev, res)
-      | Raise e => (fst (pi_spec old ev res), Raise e)
+      match snd (pi_spec old v (S outer) ev res) with
+      | Ok _ => (fst (pi_spec old v (S outer) ev res) ++ ev (caller_visible v outer), res (caller_visible v outer))
+      | Raise e => (fst (pi_spec old v (S outer) ev res), Raise e)
       end
     end.
 
-  Lemma run_pi_eq : forall (v : M unit) evf resf,
-    (forall st, v st = (st_app st (evf (s_heap st)), resf (s_heap st))) ->
-    forall f st, run_pi P f v st =
-      (st_app st (fst (pi_spec f (evf (s_heap st)) (resf (s_heap st)))), snd (pi_spec f (evf (s_heap st)) (resf (s_heap st)))).
+  Lemma run_pi_eq : forall (val : bool -> M unit) evf resf,
+    (forall b st, val b st = (st_app st (evf b (s_heap st)), resf b (s_heap st))) ->
+    forall f v outer st, run_pi P f v outer val st =
+      (st_app st (fst (pi_spec f v outer (fun b => evf b (s_heap st)) (fun b => resf b (s_heap st)))),
+       snd (pi_spec f v outer (fun b => evf b (s_heap st)) (fun b => resf b (s_heap st)))).
   Proof.
-    intros v evf resf Hv. induction f as [| |c b|old IH]; intro st.
+    intros val evf resf Hv. induction f as [| |c b|old IH]; intros v outer st.
     - simpl. unfold raise. now rewrite st_app_nil.
     - simpl. unfold ret. now rewrite st_app_nil.
     - simpl. unfold bindM, emit. destruct b; reflexivity.
     - unfold P in *. rewrite ref_run_new. unfold bindM at 1. rewrite IH.
-      destruct (snd (pi_spec old (evf (s_heap st)) (resf (s_heap st)))) as [[]|e] eqn:E.
-      + unfold bindM at 1. unfold ret at 1. unfold bindM. rewrite Hv. simpl s_heap.
-        simpl pi_spec. rewrite E. simpl. rewrite st_app_app.
-        destruct (resf (s_heap st)) as [[]|e']; reflexivity.
+      set (ev := fun b => evf b (s_heap st)). set (res := fun b => resf b (s_heap st)).
+      destruct (snd (pi_spec old v (S outer) ev res)) as [[]|e] eqn:E.
+      + unfold bindM at 1. rewrite Hv. simpl s_heap.
+        simpl pi_spec. rewrite E. simpl. rewrite st_app_app. fold (res (caller_visible v outer)).
+        destruct (res (caller_visible v outer)) as [[]|e']; reflexivity.
       + simpl pi_spec. rewrite E. reflexivity.
   Qed.
 
@@ -84,6 +121,10 @@ Section C10.
     match user_of f with Some (_, PIRaise e) => Some e | _ => None end.
   (* no PFNone below a PFNew: holds for everything resolve_pi produces *)
   Fixpoint pi_wf (f : pifun) : bool := match f with PFNew PFNone => false | PFNew old => pi_wf old | _ => true end.
+  (* the visibility flags of the successive validate_types calls, in execution order (the innermost
+     new_post_init validates first) *)
+  Fixpoint vis_list (f : pifun) (v : via) (outer : nat) : list bool :=
+    match f with PFNew old => vis_list old v (S outer) ++ [caller_visible v outer] | _ => [] end.
 
   Lemma resolve_pi_wf : forall C, pi_wf (resolve_pi P C) = true.
   Proof.
@@ -93,55 +134,61 @@ Section C10.
     - destruct (l_pi L); [reflexivity|assumption].
   Qed.
 
-  Lemma pi_spec_outcome : forall f ev res, pi_wf f = true -> is_new f = true ->
-    snd (pi_spec f ev res) =
-    match user_raises f with Some e => Raise e | None => res end.
+  Lemma pi_wf_inv : forall old, pi_wf (PFNew old) = true -> pi_wf old = true /\ old <> PFNone.
+  Proof. intros [| | |o] H; simpl in *; try discriminate; (split; [assumption || reflexivity|discriminate]). Qed.
+
+  Lemma pi_spec_outcome : forall f v outer ev res, pi_wf f = true -> f <> PFNone ->
+    snd (pi_spec f v outer ev res) =
+    match user_raises f with Some e => Raise e | None => first_raise (map res (vis_list f v outer)) end.
   Proof.
-    induction f as [| |c b|old IH]; intros ev res Hwf Hn; try discriminate.
-    simpl. unfold user_raises in *. simpl user_of.
-    destruct old as [| |c b|old'].
-    - discriminate.
+    induction f as [| |c b|old IH]; intros v outer ev res Hwf Hn.
+    - congruence.
     - reflexivity.
-    - simpl. destruct b; reflexivity.
-    - rewrite (IH ev res Hwf eq_refl).
-      destruct (user_of (PFNew old')) as [[c [|e]]|]; try reflexivity; destruct res as [[]|e']; reflexivity.
+    - unfold user_raises. simpl. destruct b; reflexivity.
+    - destruct (pi_wf_inv _ Hwf) as [Hwf' Hn'].
+      simpl pi_spec. rewrite (IH v (S outer) ev res Hwf' Hn').
+      change (user_raises (PFNew old)) with (user_raises old).
+      destruct (user_raises old) as [e|]; [reflexivity|].
+      simpl vis_list. rewrite map_app, first_raise_app. simpl map. rewrite first_raise_one.
+      destruct (first_raise (map res (vis_list old v (S outer)))) as [[]|e]; reflexivity.
   Qed.
 
+  Lemma vis_list_nonempty : forall f v outer, is_new f = true -> vis_list f v outer <> [].
+  Proof. intros [| | |old] v outer H; try discriminate. simpl. intro E. now apply app_eq_nil in E as [_ E]. Qed.
+
   (* journal: the user's entry (if any) first, then check events only *)
-  Lemma pi_spec_events : forall f ev res, forallb is_check ev = true -> pi_wf f = true ->
+  Lemma pi_spec_events : forall f v outer ev res, (forall b, forallb is_check (ev b) = true) -> pi_wf f = true ->
     exists checks, forallb is_check checks = true /\
-      fst (pi_spec f ev res) = match user_of f with Some (c, _) => EPi c :: checks | None => checks end /\
+      fst (pi_spec f v outer ev res) = match user_of f with Some (c, _) => EPi c :: checks | None => checks end /\
       (forall e, user_raises f = Some e -> checks = []).
   Proof.
-    intros f ev res Hev. induction f as [| |c b|old IH]; intro Hwf.
+    intros f v outer ev res Hev. revert outer. induction f as [| |c b|old IH]; intros outer Hwf.
     - exists []. repeat split; try reflexivity.
     - exists []. repeat split; try reflexivity.
     - exists []. repeat split; reflexivity.
-    - assert (Hwf' : pi_wf old = true) by (destruct old; simpl in *; try reflexivity; try discriminate; assumption).
-      destruct (IH Hwf') as [checks [H1 [H2 H3]]]. simpl pi_spec. unfold user_raises in *. simpl user_of.
-      destruct (snd (pi_spec old ev res)) as [[]|e] eqn:E.
-      + exists (checks ++ ev). split; [now rewrite forallb_app, H1, Hev|]. split.
+    - destruct (pi_wf_inv _ Hwf) as [Hwf' Hn'].
+      destruct (IH (S outer) Hwf') as [checks [H1 [H2 H3]]]. simpl pi_spec.
+      change (user_raises (PFNew old)) with (user_raises old). change (user_of (PFNew old)) with (user_of old).
+      pose proof (pi_spec_outcome old v (S outer) ev res Hwf' Hn') as Ho.
+      destruct (snd (pi_spec old v (S outer) ev res)) as [[]|e] eqn:E.
+      + exists (checks ++ ev (caller_visible v outer)). split; [now rewrite forallb_app, H1, Hev|]. split.
         * simpl. rewrite H2. destruct (user_of old) as [[c b]|]; reflexivity.
-        * intros e He. exfalso.
-          (* the user raised, so the old part cannot have ended normally *)
-          assert (Hr : user_raises old = Some e) by exact He.
-          clear - E Hr Hwf'. revert E Hr Hwf'. unfold user_raises.
-          induction old as [| |c b|o IHo]; simpl; intros; try discriminate.
-          -- destruct b; [discriminate|discriminate].
-          -- assert (pi_wf o = true) by (destruct o; simpl in *; try reflexivity; try discriminate; assumption).
-             destruct (snd (pi_spec o ev res)) as [[]|e'] eqn:E'; [|discriminate]. now apply IHo.
+        * intros e He. rewrite He in Ho. discriminate.
       + exists checks. split; [assumption|]. split; [|assumption]. simpl. exact H2.
   Qed.
 
   (* ---- every construction path is: compute keyword arguments, build the candidate, run __post_init__ *)
-  Definition post (C : chain) (r : nat) : M nat :=
+  Definition post (v : via) (C : chain) (r : nat) : M nat :=
     match nearest_deco C with
-    | Some D => if init_calls_pi P D then bindM (run_pi P (resolve_pi P C) (validate_types P check C r)) (fun _ => ret r) else ret r
+    | Some D =>
+      if init_calls_pi P D
+      then bindM (run_pi P (resolve_pi P C) v 0 (fun vis => validate_types P check vis C r)) (fun _ => ret r)
+      else ret r
     | None => ret r
     end.
 
   Lemma run_path_eq : forall C p st, nearest_deco C <> None ->
-    run_path P check C p st = bindM (path_candidate P C p) (post C) st.
+    run_path P check C p st = bindM (path_candidate P C p) (post (path_via p) C) st.
   Proof.
     intros C p st HD. destruct (nearest_deco C) as [D|] eqn:ED; [clear HD|congruence].
     unfold path_candidate. rewrite bindM_assoc. destruct p as [kw|r0 kw|r0 kw]; simpl.
@@ -162,54 +209,93 @@ Section C10.
     unfold chain_ok in Hok. rewrite forallb_forall in Hok. now apply Hok.
   Qed.
 
-  Lemma validate_appender : forall C D r, nearest_deco C = Some D ->
-    forall st, validate_types P check C r st =
-      (st_app st (fst (checks_prefix (s_heap st) r (dc_fields C))), snd (checks_prefix (s_heap st) r (dc_fields C))).
+  Lemma validate_appender : forall vis C D r, nearest_deco C = Some D ->
+    forall st, validate_types P check vis C r st =
+      (st_app st (fst (checks_prefix vis (s_heap st) r (dc_fields C))), snd (checks_prefix vis (s_heap st) r (dc_fields C))).
   Proof.
-    intros C D r HD st. unfold P. rewrite ref_validate, HD, (nearest_deco_fields _ _ HD). apply check_loop_eq.
+    intros vis C D r HD st. unfold P. rewrite ref_validate, HD, (nearest_deco_fields _ _ HD). apply check_loop_eq.
   Qed.
+
+  (* outcome of the validations a path performs on the candidate r in heap h *)
+  Definition validations (C : chain) (v : via) (h : heap) (r : nat) : outcome unit :=
+    first_raise (map (fun b => of_reject (first_reject (check b) h (dc_fields C) r)) (vis_list (resolve_pi P C) v 0)).
 
   (* the main statement about construction *)
   Lemma path_outcome : forall C p st st1 r,
-    chain_ok C = true -> validating P C = true ->
+    validating P C = true ->
     path_candidate P C p st = (st1, Ok r) ->
     let h1 := s_heap st1 in
-    let J := fst (pi_spec (resolve_pi P C) (fst (checks_prefix h1 r (dc_fields C))) (snd (checks_prefix h1 r (dc_fields C)))) in
+    let J := fst (pi_spec (resolve_pi P C) (path_via p) 0
+                          (fun b => fst (checks_prefix b h1 r (dc_fields C)))
+                          (fun b => snd (checks_prefix b h1 r (dc_fields C)))) in
     run_path P check C p st =
       (st_app st1 J,
        match user_raises (resolve_pi P C) with
        | Some e => Raise e
-       | None => if all_conform check h1 (dc_fields C) r then Ok r else Raise PTypeCheckC
+       | None => match validations C (path_via p) h1 r with Ok _ => Ok r | Raise e => Raise e end
        end).
   Proof.
-    intros C p st st1 r Hok Hval Hc h1 J.
+    intros C p st st1 r Hval Hc h1 J.
     unfold validating in Hval. destruct (nearest_deco C) as [D|] eqn:HD; [|discriminate].
     apply andb_true_iff in Hval as [Hinit Hnew].
     rewrite run_path_eq by congruence. unfold bindM at 1. rewrite Hc. unfold post. rewrite HD, Hinit.
     unfold bindM at 1.
-    rewrite (run_pi_eq (validate_types P check C r) (fun h => fst (checks_prefix h r (dc_fields C)))
-                       (fun h => snd (checks_prefix h r (dc_fields C))) (validate_appender C D r HD)).
-    fold h1. fold J. rewrite (pi_spec_outcome _ _ _ (resolve_pi_wf C) Hnew).
+    rewrite (run_pi_eq (fun vis => validate_types P check vis C r)
+                       (fun b h => fst (checks_prefix b h r (dc_fields C)))
+                       (fun b h => snd (checks_prefix b h r (dc_fields C)))
+                       (fun b => validate_appender b C D r HD)).
+    fold h1. fold J.
+    assert (Hne : resolve_pi P C <> PFNone) by (destruct (resolve_pi P C); [discriminate Hnew|discriminate..]).
+    rewrite (pi_spec_outcome _ _ _ _ _ (resolve_pi_wf C) Hne).
     destruct (user_raises (resolve_pi P C)) as [e|]; [reflexivity|].
-    (* fields are all set on the candidate *)
-    unfold path_candidate, bindM in Hc. destruct (path_args P C p st) as [st0 [args|e]] eqn:Ea; [|discriminate].
-    rewrite checks_prefix_outcome by (intros f Hf; eapply candidate_fields_set; eassumption).
-    destruct (all_conform check h1 (dc_fields C) r); reflexivity.
+    unfold validations.
+    rewrite (map_ext (fun b => snd (checks_prefix b h1 r (dc_fields C)))
+                     (fun b => of_reject (first_reject (check b) h1 (dc_fields C) r)))
+      by (intro; apply checks_prefix_outcome).
+    destruct (first_raise _) as [[]|e]; reflexivity.
   Qed.
 
   Lemma path_raises_early : forall C p st st1 e, nearest_deco C <> None ->
     path_candidate P C p st = (st1, Raise e) -> run_path P check C p st = (st1, Raise e).
   Proof. intros C p st st1 e HD H. rewrite run_path_eq by assumption. unfold bindM. now rewrite H. Qed.
 
-  (* ---- validate_types called by the user *)
-  Lemma validate_outcome : forall C r st, nearest_deco C <> None ->
-    (forall f, In f (dc_fields C) -> getattr (s_heap st) r (f_name f) <> None) ->
-    exists checks, forallb is_check checks = true /\
-    validate_types P check C r st =
-      (st_app st checks, if all_conform check (s_heap st) (dc_fields C) r then Ok tt else Raise PTypeCheckC).
+  (* validations succeed iff every field conforms under every context the path uses *)
+  Lemma validations_ok : forall C v h r,
+    validations C v h r = Ok tt <->
+    forall b, In b (vis_list (resolve_pi P C) v 0) -> all_conform (check b) h (dc_fields C) r = true.
   Proof.
-    intros C r st HD Hs. destruct (nearest_deco C) as [D|] eqn:ED; [|congruence].
-    rewrite (validate_appender C D r ED). rewrite checks_prefix_outcome by assumption.
+    intros. unfold validations. rewrite first_raise_ok, Forall_map, Forall_forall.
+    split; intros H b Hb; specialize (H b Hb).
+    - apply first_reject_none. destruct (first_reject _ _ _ _); [discriminate|reflexivity].
+    - apply first_reject_none in H. now rewrite H.
+  Qed.
+
+  (* a checker whose verdict does not depend on the caller's locals: one validation decides *)
+  Definition vis_indep : Prop := forall b h a v, check b h a v = check true h a v.
+
+  Lemma first_reject_ext : forall c1 c2 h fs r, (forall a v, c1 h a v = c2 h a v) ->
+    first_reject c1 h fs r = first_reject c2 h fs r.
+  Proof.
+    intros c1 c2 h fs r H. induction fs as [|f fs IH]; simpl; [reflexivity|].
+    destruct (getattr h r (f_name f)); [|reflexivity]. rewrite H. now rewrite IH.
+  Qed.
+
+  Lemma validations_indep : forall C v h r, vis_indep -> is_new (resolve_pi P C) = true ->
+    validations C v h r = of_reject (first_reject (check true) h (dc_fields C) r).
+  Proof.
+    intros C v h r Hi Hn. unfold validations. apply first_raise_const.
+    - intro E. apply map_eq_nil in E. now apply vis_list_nonempty in E.
+    - apply Forall_map, Forall_forall. intros b _. f_equal. apply first_reject_ext. intros. apply Hi.
+  Qed.
+
+  (* ---- validate_types called by the user (context = the caller's frame) *)
+  Lemma validate_outcome : forall vis C r st, nearest_deco C <> None ->
+    exists checks, forallb is_check checks = true /\
+    validate_types P check vis C r st =
+      (st_app st checks, of_reject (first_reject (check vis) (s_heap st) (dc_fields C) r)).
+  Proof.
+    intros vis C r st HD. destruct (nearest_deco C) as [D|] eqn:ED; [|congruence].
+    rewrite (validate_appender vis C D r ED). rewrite checks_prefix_outcome.
     eexists. split; [apply checks_prefix_events|reflexivity].
   Qed.
 
@@ -220,5 +306,26 @@ Section C10.
     intros L rest HL HT. unfold validating. simpl nearest_deco. rewrite HL.
     unfold init_calls_pi. unfold P. rewrite ref_ts_installed, ref_install. fold P. rewrite HL, HT. simpl.
     rewrite !orb_true_r. simpl. unfold P. rewrite ref_ts_installed. fold P. now rewrite HL, HT.
+  Qed.
+
+  (* an undecorated subclass that does not define __post_init__ itself inherits the validation *)
+  Lemma undecorated_inherits_validating : forall L rest,
+    decorated L = false -> l_pi L = None -> validating P rest = true -> validating P (L :: rest) = true.
+  Proof.
+    intros L rest HL Hpi Hv. unfold validating in *. simpl nearest_deco. rewrite HL.
+    destruct (nearest_deco rest) as [D|]; [|discriminate]. simpl resolve_pi. rewrite Hpi.
+    unfold ts_installed. rewrite HL. simpl. exact Hv.
+  Qed.
+
+  (* a decorated subclass (type_safe or not) of a validating class is validating *)
+  Lemma decorated_child_validating : forall L rest,
+    decorated L = true -> l_pi L = None -> validating P rest = true -> validating P (L :: rest) = true.
+  Proof.
+    intros L rest HL Hpi Hv. unfold validating in *. simpl nearest_deco. rewrite HL.
+    destruct (nearest_deco rest) as [D|]; [|discriminate]. apply andb_true_iff in Hv as [_ Hn].
+    simpl resolve_pi. rewrite Hpi. simpl init_calls_pi. rewrite Hpi. simpl.
+    assert (Hp : has_pi P rest = true) by (unfold has_pi; destruct (resolve_pi P rest); [discriminate|reflexivity..]).
+    rewrite Hp. simpl.
+    destruct (ts_installed P L); [reflexivity|]. exact Hn.
   Qed.
 End C10.
